@@ -135,6 +135,7 @@ class Gen:
         self.exp = set()                     # names that may be exported somewhere
         self.bound = set()                   # names certainly assigned at some point
         self.temp = []                       # names of enclosing temporary assignments
+        self.locs = set()                    # names that may have a local binding in some frame
 
     def val(self):
         return self.rng.choice(SVALS)
@@ -174,10 +175,10 @@ class Gen:
         for _ in range(50):
             st = self.action0(depth)
             if self.safe_ok(st, depth):
-                self.note(st)
+                self.note(st, depth)
                 return st
         st = {"sh": "y=ab", "ops": ["as:y:-:sab:-"], "k": "assign", "n": "y"}
-        self.note(st)
+        self.note(st, depth)
         return st
 
     @staticmethod
@@ -187,7 +188,7 @@ class Gen:
                 return t.split(":")[1]
         return None
 
-    def note(self, st):
+    def note(self, st, depth=0):
         n, k, sh = self.target(st), st["k"], st["sh"]
         if k == "readonly" or " -r" in sh:
             self.ro.add(n)
@@ -195,6 +196,10 @@ class Gen:
             self.exp.add(n)
         if k in ("assign", "for", "read", "printf", "arith", "getopts", "mapfile") or "=" in sh:
             self.bound.add(n)
+        if k == "unset":
+            self.bound.discard(n)
+        if k in ("local", "declare") and depth > 0 and "-g" not in sh.split():
+            self.locs.add(n)
 
     def safe_ok(self, st, depth):
         n, k, sh = self.target(st), st["k"], st["sh"]
@@ -203,38 +208,32 @@ class Gen:
         arrayish = ("[" in sh.split("=")[0]) or "(" in sh or " -a" in sh or " -A" in sh or "read -a" in sh or k == "mapfile" or k in ("elem", "unset-elem")
         if arrayish and n not in ("a", "m"):
             return False                                   # scalars stay scalars
-        if n in ("a", "m") and (k == "export" or " -x" in sh):
-            return False                                   # exported_array_reaches_child
         if n == "m" and k == "mapfile":
             return False
         if "read -a" in sh and n != "a":
             return False                                   # `read -a` into an associative array: bash refuses, brush re-keys
-        if n in ("a", "m") and "+=" in sh and "(" not in sh:
-            return False                                   # scalar `+=` on an array appends to element 0: same defect
-        if "-g" in sh.split() and depth > 0:
-            return False                                   # declare_g_updates_local
-        if "]+=" in sh:
-            return False                                   # case_transform_on_element_append
+        if "-g" in sh.split() and n in self.locs:
+            return False                                   # `declare -g` while a caller has a local of that name: bash re-types the caller's local
         if k == "readonly" and depth > 0 and "(" in sh:
             return False                                   # bash quirk: `readonly v=(…)` on a local array inside a function empties it
-        if k == "unset-elem":
-            return False                                   # `unset 'v[0]'` on a scalar: bash unsets v, brush reports "not an array"
+        if k == "unset-elem" and n not in self.bound:
+            return False                                   # `unset 'v[i]'` on a declared-but-unset v: bash removes v
         if self.safe and re.search(r"\[-\d+\]", sh):
             return False                                   # negative subscripts: bash rejects some that brush accepts
         if n in self.ro and k in ("declare", "local", "readonly", "export") and sh.split()[-1] != n:
-            return False                                   # attribute changes applied before a refused assignment
-        if n in self.ro and k in ("declare", "local", "readonly") and len(sh.split()) > 2:
-            return False
+            return False                                   # a refused `export x=v` / `declare -i x=v` on a readonly x: bash still applies -x / -i (but not -l)
         if n in self.temp and k not in ("assign", "for", "read", "printf", "arith"):
             return False                                   # attributes of a temporary binding: bash propagates some to the global
         if k in ("local", "declare") and depth > 0 and "-g" not in sh:
-            if n in self.ro or n in self.exp or n in self.temp:
-                return False                               # readonly / exported global shadowed by a local
+            if n in self.temp:
+                return False                               # a local over a temporary binding: bash copies the temporary value
+            if n in self.exp and n in ("a", "m"):
+                return False                               # a local array over an exported scalar: bash's cached child environment may keep the hidden value
         if k in ("declare", "local", "readonly") and (" -a" in sh or " -A" in sh or " +" in sh):
             if "=" not in sh or n in self.bound or n in self.ro:
                 return False                               # re-typing an existing variable: long tail of bash quirks
-        if k in ("export", "declare", "local", "readonly") and "=" not in sh:
-            return False                                   # valueless declarations of possibly unbound names (export_of_unset_name_ignored, …)
+        if k in ("declare", "local", "readonly") and "=" not in sh:
+            return False                                   # valueless declarations of possibly unbound names
         if k in ("declare", "local", "readonly") and "=" not in sh and n not in self.bound and depth == 0:
             return True
         if n in ("a", "m") and k in ("assign",) and n not in self.bound and "+=" in sh:
@@ -291,7 +290,7 @@ class Gen:
         if r < 0.64:
             if n in ("a", "m") and rng.random() < 0.4:
                 i = self.idx(n)
-                return {"sh": "unset '%s[%s]'" % (n, i), "ops": ["pu:c", "ui:%s:%s" % (n, esc(i)), "po:c"], "k": "unset-elem"}
+                return {"sh": "unset '%s[%s]'" % (n, i), "ops": ["pu:c", "uj:%s:%s" % (n, esc(i)), "po:c"], "k": "unset-elem"}
             return {"sh": "unset %s" % n, "ops": ["pu:c", "un:%s" % n, "po:c"], "k": "unset"}
         if r < 0.74:      # export forms
             q = rng.random()
@@ -336,7 +335,7 @@ class Gen:
     def prefix0(self):
         n = self.rng.choice(["t", "u", "t", "x"])
         if self.safe:
-            cand = [c for c in ["t", "u", "x"] if c not in self.ro and c not in self.temp]
+            cand = [c for c in ["t", "u", "x"] if c not in self.temp]
             if not cand:
                 return None
             n = self.rng.choice(cand)
@@ -573,7 +572,7 @@ def clauses_for(scopes_text, ops_so_far, script):
 
 def load_corpus():
     cases = []
-    cdir = os.path.join(lib.ROOT, "corpus", PROP)
+    cdir = os.path.join(os.environ.get("VERIF_CORPUS") or os.path.join(lib.ROOT, "corpus"), PROP)
     if os.path.isdir(cdir):
         for f in sorted(os.listdir(cdir)):
             if f.endswith(".json"):
